@@ -298,6 +298,32 @@ def resolution(ctx):
                     ctx.fail(key, f"{arg!r} resolved to {got!r}, expected {want!r} (sys.path had {extra_path})", case)
                 ctx.bump("resolution")
                 ctx.nontriv("resolution", arg, extra_path)
+        # a test script that itself changes sys.path while it is imported (a common idiom: helpers next to the test): when
+        # Lithium is done, sys.path is what it was before PLUS the script's own change — Lithium's temporary entry is gone and
+        # the script's entry is not
+        (base / "helpers").mkdir()
+        for how, line in (("front", "sys.path.insert(0, HELP)"), ("back", "sys.path.append(HELP)"), ("second", "sys.path.insert(1, HELP)")):
+            (base / "cwd" / f"c17res_p{how}.py").write_text(
+                f"import sys\nHELP = {str(base / 'helpers')!r}\n{line}\nWHERE = 'path-{how}'\ndef interesting(a, p):\n    return True\n")
+            for arg in (f"c17res_p{how}", str(base / "cwd" / f"c17res_p{how}.py")):
+                for m in [k for k in sys.modules if k.startswith("c17res_")]:
+                    del sys.modules[m]
+                saved = list(sys.path)
+                before = list(sys.path)
+                try:
+                    rel_or_abs_import(arg)
+                except ImportError as exc:
+                    ctx.fail("resolution-order", f"{arg!r} did not import: {exc}", dict(test_name=arg))
+                after = list(sys.path)
+                sys.path[:] = saved
+                ctx.evaluations += 1
+                helper = str(base / "helpers")
+                want = {"front": [helper] + before, "back": before + [helper], "second": before[:1] + [helper] + before[1:]}[how]
+                if after != want:
+                    ctx.fail("sys-path", f"rel_or_abs_import({arg!r}), a test that does `{line}` while imported: sys.path afterwards starts "
+                             f"{after[:3]} and ends {after[-2:]}; expected the path as before plus the test's own entry ({how})",
+                             dict(test_name=arg, script_changes_sys_path=how))
+                ctx.bump("resolution-path-changing-test")
     finally:
         os.chdir(cwd)
         for m in [k for k in sys.modules if k.startswith("c17res_") or k == "crashes"]:
